@@ -407,11 +407,21 @@ def run_l2(case):
         b.echo(token, v)
         b.echo(token, [v])
         try:
-            br = list(b())
-            checks.append(("batch result", br[0]))
+            r1 = b()            # (read further down: the same BatchProxy is used for a second batch first - supported usage)
             bargs, _bk = RECEIVED.pop(token, ((None, None), None))
             if type(bargs[0]) is list and len(bargs[0]) == 1:
                 checks.append(("batch argument", bargs[0][0]))
+            b.echo(token, {"k": v})
+            r2 = b()
+            br, br2 = list(r1), list(r2)
+            if len(br) == 2:
+                checks.append(("batch result", br[0]))
+            else:
+                viol("batch-shape", "first of two batches through one BatchProxy: 2 calls, results %.200r" % (br,))
+            if len(br2) == 1:
+                checks.append(("batch result (second batch, same BatchProxy)", br2[0]))
+            else:
+                viol("batch-shape", "second of two batches through one BatchProxy: 1 call, results %.200r" % (br2,))
         except Exception as x:
             viol("batch-raises", "batch raised %r" % (x,))
         # streamed items
